@@ -10,6 +10,7 @@ import (
 	"sync"
 	"sync/atomic"
 	"testing/synctest"
+	"time"
 )
 
 // NSites is the number of woven yield sites in this build (set by the
@@ -111,6 +112,10 @@ type Config struct {
 	// Procs is what woven runtime.GOMAXPROCS(0)/runtime.NumCPU() calls return
 	// during this run (0: the real value).
 	Procs int
+	// ClockTape drives the simulated clock read by woven time.Now/Since: every
+	// reading advances it by a step chosen by the next tape entry (0: stands
+	// still; otherwise one of 1µs, 1ms, 1s, 1min, 1h — skew and jumps).
+	ClockTape []uint32
 }
 
 // Event is one scheduler decision.
@@ -133,6 +138,7 @@ type Result struct {
 	Adjacent    []uint64 // distinct (site before switch, site after switch) pairs
 	Deadlock    bool
 	Thawed      int  // the frozen client was released because nothing else could run
+	ClockReads  int  // readings of the simulated clock
 	Abandoned   bool // MaxSteps reached: drained free-running
 	TapeUsed    int
 	ClientPanic []string
@@ -151,6 +157,10 @@ type Sim struct {
 	res     Result
 	adj     map[uint64]struct{}
 	clients []*Task
+
+	clock      time.Duration
+	clockTape  *Tape
+	clockReads int
 }
 
 var siteStart = ^uint32(0)
@@ -384,6 +394,7 @@ func Run(cfg Config, clients []Client) Result {
 	s.res.LogHash = uint64(h)
 	s.res.Tasks = len(*s.tasks.Load())
 	s.res.TapeUsed = s.tape.Pos()
+	s.res.ClockReads = s.clockReads
 	for k := range s.adj {
 		s.res.Adjacent = append(s.res.Adjacent, k)
 	}
@@ -396,6 +407,38 @@ func Run(cfg Config, clients []Client) Result {
 	}
 	return s.res
 }
+
+// Simulated clock. Outside scheduled runs the real clock is used.
+var simEpoch = time.Date(2020, 1, 1, 0, 0, 0, 0, time.UTC)
+
+func (s *Sim) now() time.Time {
+	s.mu.Lock()
+	defer s.mu.Unlock()
+	if s.clockTape == nil {
+		s.clockTape = NewTape(s.cfg.ClockTape)
+	}
+	if v := s.clockTape.Next(); v != 0 {
+		s.clock += []time.Duration{time.Microsecond, time.Millisecond, time.Second, time.Minute, time.Hour}[v%5]
+	}
+	s.clockReads++
+	return simEpoch.Add(s.clock)
+}
+
+// Now replaces time.Now in woven code.
+func Now() time.Time {
+	if mode.Load() == modeSched {
+		if s := cur.Load(); s != nil {
+			return s.now()
+		}
+	}
+	return time.Now()
+}
+
+// Since replaces time.Since in woven code.
+func Since(t time.Time) time.Duration { return Now().Sub(t) }
+
+// Until replaces time.Until in woven code.
+func Until(t time.Time) time.Duration { return t.Sub(Now()) }
 
 // Procs replaces runtime.GOMAXPROCS(0) and runtime.NumCPU() in woven code.
 func Procs() int {
